@@ -76,6 +76,7 @@ def run(ctx):
         else:
             ctx.mismatch('fornberg.float', [[f2hex(x) for x in xs], f2hex(x0), n], w.tolist(), model.tolist(), '%s ulp' % worst)
         wn = fornberg.fd_weights(np.array(xs), x0, n)
+        ctx.keep('fd_weights', wn, xs=list(xs), x0=x0, n=n)
         if not np.array_equal(wn, w[n]):
             ctx.violation('fd_weights is not row n of fd_weights_all', x=xs, x0=x0, n=n)
     ctx.sample({'engine': 'fornberg.float', 'x': cases[0][2], 'x0': cases[0][3], 'n': cases[0][4], 'model_hex': out[0][:200]})
@@ -144,6 +145,7 @@ def run(ctx):
         ctx.tried((tuple(xs), x0, n) if m >= 3 else None)
         try:
             w = fornberg.fd_weights_all(np.array(xs), x0, n)
+            ctx.keep('fd_weights_all', w, xs=list(map(float, xs)), x0=float(x0), n=n)
         except Exception as ex:
             ctx.violation('fd_weights_all raised %r' % ex, x=xs, x0=x0, n=n)
             continue
